@@ -101,6 +101,19 @@ def run(chk):
             chk.evaluations += nline
             chk.extra["repo_test_trace"] = {"events": nline, "updates": txt.count('"ev":"update"')}
 
+    # 6. witnesses by origin (RevAPI.tla, scenarios witness-update): built in memory, read back from storage, stored without u / e
+    ga = vplib.tlc_mc("RevAPIGen", "RevAPI.cfg", workers=1, timeout=300)
+    wu = sorted(x for x in set(ga.tagged_raw_json("A")) if '"call":"witness-update"' in x)
+    chk.add_tlc(ga, "RevAPIGen", "RevAPI.cfg", "Total, FailLeavesUnchanged; %d witness-update scenarios" % len(wu))
+    if len(wu) != 4:
+        raise vplib.Machinery("%d witness-update scenarios" % len(wu))
+    ap = os.path.join(vplib.sub("c09"), "witapi.ndjson")
+    open(ap, "w").write("\n".join(wu) + "\n")
+    res = vplib.vh("rev", ["api", "--in", ap, "--tier", T, "--seed", str(chk.seed)], timeout=600)
+    if res["evaluations"] != len(wu):
+        raise vplib.Machinery("api replay: %d of %d" % (res["evaluations"], len(wu)))
+    chk.add_replay(res, "witness_origins")
+
 def replay(chk, path):
     import json
     v = json.load(open(path))
